@@ -43,10 +43,10 @@ func init() {
 	add([]string{"internal/dmap", "internal/cluster/routingtable", "."}, "golang.org/x/sync/errgroup", "verrgroup")
 }
 
-// files in which `go f(args)` statements (not `go func(){...}()`) become vsync.Go(...) calls with
+// files (the client operation paths) in which `go f(args)` statements become vsync.Go(...) calls with
 // the same evaluation order: by default still a goroutine, under a harness that sets vsync.Spawn a
 // queued closure that runs when the explorer delivers it (asynchronous replication as an event).
-var goRewrite = map[string]bool{"internal/dmap/put.go": true}
+var goRewrite = map[string]bool{"internal/dmap/put.go": true, "internal/dmap/get.go": true}
 
 // files of /repo replaced wholesale by files of /verif/fake
 var replaced = map[string]string{
@@ -113,9 +113,6 @@ func main() {
 				ast.Inspect(f, func(n ast.Node) bool {
 					g, ok := n.(*ast.GoStmt)
 					if !ok {
-						return true
-					}
-					if _, lit := g.Call.Fun.(*ast.FuncLit); lit {
 						return true
 					}
 					var names, vals []string
